@@ -98,7 +98,22 @@ pub fn run_parallel_multi<J: Send + Sync + 'static>(
                     if serial {
                         eprintln!("START {k}");
                     }
-                    let (lines, summary) = f(&jobs[k], k);
+                    // a panic of the crate that no scenario caught is data (an event no
+                    // specification explains); a panic of the harness itself is a tool failure
+                    scen_adv::PANIC_LOCS.with(|l| l.borrow_mut().clear());
+                    let (lines, summary) = match std::panic::catch_unwind(std::panic::AssertUnwindSafe(|| f(&jobs[k], k))) {
+                        Ok(x) => x,
+                        Err(_) => {
+                            let loc = scen_adv::PANIC_LOCS.with(|l| l.borrow().last().map(|x| x.0.clone())).unwrap_or_default();
+                            if !loc.starts_with("/repo/") {
+                                eprintln!("HARNESS PANIC in scenario {k} at {loc}");
+                                std::process::exit(3);
+                            }
+                            let mut v = vec![vec![]; outs.len()];
+                            v[0] = vec![json!({"e":"ScenarioPanic","job":k,"loc":loc}).to_string()];
+                            (v, json!({"result": format!("panic at {loc}")}))
+                        }
+                    };
                     for (o, l) in outs.iter().zip(lines.iter()) {
                         o.block(l);
                     }
